@@ -188,6 +188,10 @@ def slot_rules(ctx):
 
 def run(ctx):
     ctx.attempt(csr_assembly_rule, ctx)
+    from . import c14 as _c14
+
+    # 'whether it is the first assembly or a later one': a later request returns the matrices of the current state
+    ctx.attempt(_c14.per_problem_memo_rule, ctx, "R3.10")
     from ..shared import group_loop_rule as _group_loop_rule
 
     ctx.attempt(_group_loop_rule, ctx, "R3.8", scope=lambda f, _s=("EasyFEA.Simulations",): f.module.name.startswith(_s), min_instances=5)
@@ -326,10 +330,21 @@ class XCsr:
     def __init__(self, arg, shape=None):
         if isinstance(arg, tuple) and len(arg) == 2 and all(isinstance(x, (int, Fraction)) for x in arg) and shape is None:
             shape, arg = arg, None
+        dense = None
+        if shape is None and isinstance(arg, XArray) and arg.ndim == 2:  # csr_matrix(dense 2-D array)
+            dense, shape, arg = arg, arg.shape, None
+        if shape is None:
+            raise AnalysisError("csr_matrix constructor form not modelled (no shape)")
         self.shape = tuple(int(x) for x in shape)
         self.has_canonical_format = False
         entries = {}
-        if arg is None:
+        if dense is not None:
+            for i in range(self.shape[0]):
+                for j in range(self.shape[1]):
+                    v = dense[i, j]
+                    if not (isinstance(v, (int, Fraction)) and v == 0):
+                        entries[(i, j)] = v
+        elif arg is None:
             pass
         elif len(arg) == 2:  # (values, (rows, cols))
             vals, (rows, cols) = arg
